@@ -26,7 +26,23 @@ def ulp_dev(orig, now):
     if a.shape != b.shape or a.dtype != b.dtype:
         return float('inf')
     if np.iscomplexobj(a):
-        return max(ulp_dev(a.real, b.real), ulp_dev(a.imag, b.imag))
+        # complex elements are compared norm-wise (|dz| in ulps of |z|): a component that is 300 orders of magnitude
+        # below the other one becomes subnormal under the solver's internal scaling and cannot be restored exactly,
+        # while the complex number as a whole is restored to the last bit
+        na, nb = np.isnan(a.real) | np.isnan(a.imag), np.isnan(b.real) | np.isnan(b.imag)
+        if not np.array_equal(na, nb):
+            return float('inf')
+        m = ~na
+        if not np.any(m):
+            return 0.0
+        x, y = a[m], b[m]
+        with np.errstate(invalid='ignore', divide='ignore', over='ignore'):
+            mag = np.maximum(np.abs(x), np.abs(y))
+            d = np.abs(x - y)
+            same = (x.real == y.real) & (x.imag == y.imag)
+            r = np.where(same, 0.0, d / np.where(mag > 0, mag * 2.0 ** -52, 1.0))
+        r = np.where(np.isfinite(r), r, np.inf)
+        return float(np.max(r))
     na, nb = np.isnan(a), np.isnan(b)
     if not np.array_equal(na, nb):
         return float('inf')
